@@ -579,7 +579,11 @@ def checkLiquidation (e : Engine M) (sym : Nat) (c : Candle) : Engine M :=
         let e1 := logE { e with w := w', via := e.via ++ [none], storage := upd e.storage sym (· ++ [id]),
                                 liquidations := e.liquidations + 1 }
           (Event.submit id sym o.side o.type o.qty o.price o.reduceOnly)
-        executeOrder u (logE e1 (Event.liquidation sym)) id
+        -- the bigger timeframes are published up to the current minute before the position hooks run
+        let e2 := logE e1 (Event.liquidation sym)
+        match (storeOf e2 sym).short.getLast? with
+        | some last => executeOrder u (updatePartialCandle e2 sym last) id
+        | none => fail e2 .IndexError
     else e
   | _, _ => e
 
